@@ -124,6 +124,7 @@ type solveOut struct {
 // runPortfolio runs all solvers on the script; first definitive answer wins (unless all==true).
 func runPortfolio(script string, dir string, name string, timeout time.Duration, seed int, all bool) solveOut {
 	file := filepath.Join(dir, name+".smt2")
+	os.MkdirAll(dir, 0o700) // the scratch directory may have been removed by a clean-up job running beside the check
 	if err := os.WriteFile(file, []byte(script), 0o644); err != nil {
 		return solveOut{result: "error", raw: err.Error()}
 	}
